@@ -15,7 +15,7 @@ ENCODED = ["mchap.application.atomize.format_vcf_snv_block", "mchap.application.
 STUBS = ["pysam.VariantRecord -> duck-typed record (ref, alts or None, info[SNVPOS], samples mapping with GT tuples incl. None, optional ACP/AFP/SNVDP, SQ)"]
 ASSUMES = ["atomize's string handling (numpy unicode arrays, np.char, pandas) is compiled code: every symbolic record parameter (bases, number of ALT, GT entries, presence of optional fields) is an integer variable that the solver enumerates exhaustively inside the bound; the verdict is per realised record against an independent projection oracle (weaker, enumerative mode: stated in evidence)",
            "listed haplotypes are pairwise distinct (as in any VCF record)"]
-BOUNDS = {"quick": "records with 0..2 ALT haplotypes over 2 SNV sites (bases from {A,C,G} / {A,C}), 2 samples (one diploid with every GT incl. '.', one fixed triploid), ACP / AFP / neither, SNVDP present or not",
+BOUNDS = {"quick": "records with 0..2 ALT haplotypes over 2 SNV sites (bases from {A,C,G} / {A,C}), 2 samples (one diploid with every GT incl. '.', one fixed triploid), ACP / AFP / neither, SNVDP present or not; the second sample named like each of the nine fixed VCF columns (columns compared by position)",
           "thorough": "adds 3 ALT haplotypes, 3 sites, a second fully enumerated sample"}
 OUTSIDE = "pandas to_csv text rendering; header lines; larger records (the float text of AC / ACP / DS is realised for counts k/8 up to 125)"
 TASKS_PER_CHILD = 4
@@ -30,10 +30,16 @@ def configs(tier):
             for dp in (True, False):
                 for s1 in (("A", "C", "G")[: min(3, n_alt + 1)] if n_alt else ("A",)):
                     out.append(dict(n_alt=n_alt, opt=opt, dp=dp, ref0=s1, sites=2))
+    # sample names are free text (BAM SM tags): also the names of the fixed VCF columns
+    for name in FIXED_COLS:
+        out.append(dict(n_alt=1, opt="ACP", dp=True, ref0="A", sites=2, name=name))
     # the counts atomize prints (AC / ACP / DS) for many samples: every value k/8 in a range must read back as itself
     for lo in range(0, 1001, 250 if tier == "quick" else 125):
         out.append(dict(group="floats", lo=lo, hi=min(1000, lo + (250 if tier == "quick" else 125) - 1)))
     return out
+
+
+FIXED_COLS = ["CHROM", "POS", "ID", "REF", "ALT", "QUAL", "FILTER", "INFO", "FORMAT"]
 
 
 def weight(c):
@@ -71,8 +77,8 @@ def _build(c, pick):
                 chars[p - 1] = alpha[k][pick("b%d_%d" % (h, k), 0, len(alpha[k]) - 1)]
         haps.append("".join(chars))
     gts = {}
-    gts["s1"] = tuple((None if v < 0 else v) for v in (pick("g0", -1, n_alt), pick("g1", -1, n_alt)))
-    gts["s2"] = (0, min(1, n_alt), n_alt)
+    gts["s2" if c.get("name") else "s1"] = tuple((None if v < 0 else v) for v in (pick("g0", -1, n_alt), pick("g1", -1, n_alt)))
+    gts[c.get("name", "s2")] = (0, min(1, n_alt), n_alt)
     samples = {}
     for s, gt in gts.items():
         d = {"GT": gt, "SQ": 60}
@@ -201,8 +207,24 @@ def run_config(c, col):
 def _compare(c, haps, snvpos, samples, block):
     want = _oracle(haps, snvpos, samples, 101)
     problems = []
-    rows = [] if block is None else [block.iloc[i] for i in range(len(block))]
-    by_pos = {int(r["POS"]): r for r in rows}
+    # columns by POSITION (a sample may be named like a fixed column): nine fixed columns, then one per sample in the record's order
+    names = list(samples)
+    rows = []
+    if block is not None:
+        cols = [str(x) for x in block.columns]
+        if cols[:9] != FIXED_COLS or cols[9:] != names:
+            problems.append(("columns", "block columns %s, expected the nine fixed columns followed by the samples %s" % (cols, names)))
+            return problems
+        for i in range(len(block)):
+            vals = list(block.iloc[i].values)
+            row = dict(zip(FIXED_COLS, vals[:9]))
+            row.update({("sample", k): v for k, v in zip(names, vals[9:])})
+            rows.append(row)
+    try:
+        by_pos = {int(r["POS"]): r for r in rows}
+    except (TypeError, ValueError):
+        problems.append(("columns", "POS column holds %r" % ([r["POS"] for r in rows],)))
+        return problems
     if len(by_pos) != len(rows):
         problems.append(("duplicate-lines", "two lines at the same POS"))
     for ln in want:
@@ -224,7 +246,7 @@ def _compare(c, haps, snvpos, samples, block):
         if ln["alts"] and ac != [float(x) for x in ln["ac"]]:
             problems.append(("ac", "AC %s expected %s" % (info.get("AC"), ln["ac"])))
         for s, d in samples.items():
-            fields = str(r[s]).split(":")
+            fields = str(r[("sample", s)]).split(":")
             if fields[0] != ln["gts"][s]:
                 problems.append(("gt-projection", "sample %s GT %s expected %s at POS %d" % (s, fields[0], ln["gts"][s], ln["pos"])))
             if c["opt"] != "none" and ln["alts"] and all(a is not None for a in d["GT"]):
